@@ -391,7 +391,7 @@ theorem dflt_dfltModRes (s : State) (d : Array Nat) (c : Dflt n s)
 was received by a `Dflt` device -/
 def dfltGainRes (s : State) (d : Array Nat) : State :=
   { s with stmSegment := 0, stmCycle := setSel s.stmCycle 0 1, stmRep := setSel s.stmRep 0 0xFFFF,
-           stmDiv := setSel s.stmDiv 0 0xFFFF,
+           stmDiv := setSel s.stmDiv 0 0xFFFF, stmMode := setSel s.stmMode 0 1,
            ctl := ((((((((s.ctl.setIfInBounds 85 65535).setIfInBounds 87 65535).setIfInBounds 83 0).setIfInBounds 89 1).setIfInBounds
                       80 0).setIfInBounds 81 0).setIfInBounds 82 0).setIfInBounds 95 0).setIfInBounds 0 0,
            stmMem0 := writeLoop s.stmMem0 0 (fun i => rd (wordsAt d FwLayout.Gain_size s.numTr) i % 65536) s.numTr,
